@@ -87,14 +87,53 @@ def firstNonNullAux (nulls : List Bool) (n : Nat) : Nat → Nat → Option Nat
 
 def firstNonNull (c : Chunk) : Option Nat := firstNonNullAux c.nulls c.n c.n 0
 
-/-- multi_row_group.go:436-443: `cmp(currMax, nextMin) > 0 → not ascending`; `cmp` is the raw `typ.Compare`,
-    which reads a null `Value{}` as the zero value (rank `z`) -/
+/-- multi_row_group.go:417-435 the seam loop of the REPAIRED `multiColumnIndex.IsAscending` (library commit 5dcb05b)
+    with `nonNullPageRange` (:479-490): one pass carrying `prevMax`/`hasPrev` = the max of the last non-null page
+    seen so far; a chunk without non-null page (`firstPage > lastPage`) is skipped and does not reset it;
+    `cmp(prevMax, MinValue(firstPage)) > 0 → not ascending`. `cmp` is the raw `typ.Compare`, which reads a null
+    `Value{}` as the zero value (rank `z`). -/
+def ascSeams (z : Int) : Option Int → List Chunk → Bool
+  | _, [] => true
+  | prev, c :: rest =>
+    match firstNonNull c, lastNonNull c with
+    | some f, some l =>
+      (match prev with
+        | some m => !decide (m > stored z (minAt c.ix f))
+        | none => true) && ascSeams z (some (stored z (maxAt c.ix l))) rest
+    | _, _ => ascSeams z prev rest
+
+/-- multi_row_group.go:454-472 the seam loop of the repaired `IsDescending`: carries `prevMin`;
+    `cmp(prevMin, MaxValue(firstPage)) < 0 → not descending` -/
+def descSeams (z : Int) : Option Int → List Chunk → Bool
+  | _, [] => true
+  | prev, c :: rest =>
+    match firstNonNull c, lastNonNull c with
+    | some f, some l =>
+      (match prev with
+        | some m => !decide (m < stored z (maxAt c.ix f))
+        | none => true) && descSeams z (some (stored z (minAt c.ix l))) rest
+    | _, _ => descSeams z prev rest
+
+/-- multi_row_group.go:401-436 `multiColumnIndex.IsAscending` (`m.typ` is the type of the first chunk and is
+    never nil when there is a chunk; with no chunk `ColumnIndex()` answers `emptyColumnIndex`, flags false) -/
+def multiIsAscending (z : Int) (cs : List Chunk) : Bool :=
+  !cs.isEmpty && cs.all (·.asc) && ascSeams z none cs
+
+/-- multi_row_group.go:438-475 `multiColumnIndex.IsDescending` -/
+def multiIsDescending (z : Int) (cs : List Chunk) : Bool :=
+  !cs.isEmpty && cs.all (·.desc) && descSeams z none cs
+
+/-! #### the loops BEFORE repair 5dcb05b (regression facts only): adjacent chunks, no carried bound -/
+
+/-- before 5dcb05b: `cmp(currMax, nextMin) > 0 → not ascending`, last non-null page of chunk i against the first
+    non-null page of chunk i+1; skipped when either chunk has none -/
 def crossAscOK (z : Int) (a b : Chunk) : Bool :=
   match lastNonNull a, firstNonNull b with
   | some i, some j => !decide (stored z (maxAt a.ix i) > stored z (minAt b.ix j))
   | _, _ => true
 
-/-- multi_row_group.go:480-487: `cmp(currMin, nextMax) < 0 → not descending` -/
+/-- before 5dcb05b: `cmp(currMin, nextMax) < 0 → not descending`, FIRST non-null page of chunk i against the LAST
+    non-null page of chunk i+1 (the wrong ends) -/
 def crossDescOK (z : Int) (a b : Chunk) : Bool :=
   match firstNonNull a, lastNonNull b with
   | some i, some j => !decide (stored z (minAt a.ix i) < stored z (maxAt b.ix j))
@@ -105,13 +144,10 @@ def pairsAll (f : Chunk → Chunk → Bool) : List Chunk → Bool
   | a :: b :: rest => f a b && pairsAll f (b :: rest)
   | _ => true
 
-/-- multi_row_group.go:401-447 `multiColumnIndex.IsAscending` (`m.typ` is the type of the first chunk and is
-    never nil when there is a chunk; with no chunk `ColumnIndex()` answers `emptyColumnIndex`, flags false) -/
-def multiIsAscending (z : Int) (cs : List Chunk) : Bool :=
+def multiIsAscending_before_fix (z : Int) (cs : List Chunk) : Bool :=
   !cs.isEmpty && cs.all (·.asc) && pairsAll (crossAscOK z) cs
 
-/-- multi_row_group.go:449-491 `multiColumnIndex.IsDescending` -/
-def multiIsDescending (z : Int) (cs : List Chunk) : Bool :=
+def multiIsDescending_before_fix (z : Int) (cs : List Chunk) : Bool :=
   !cs.isEmpty && cs.all (·.desc) && pairsAll (crossDescOK z) cs
 
 /-- search.go:31-50 `Find` on any `ColumnIndex`: the guard reads `NullPage(i)`, the searches read the bounds -/
@@ -397,6 +433,28 @@ theorem no_null_chunks (cs : List Chunk) (h : (concatNulls cs).any id = false) :
   simp only [concatNulls, List.any_flatMap, List.any_eq_false] at h
   simpa using h c hc
 
+/-- on chunks without null page and with at least one page the carried bound is the max of the previous chunk's
+    last page: the repaired seam loop and the adjacent-pair loop it replaced agree -/
+theorem ascSeams_eq_pairsAll (z : Int) : ∀ (cs : List Chunk) (a : Chunk),
+    (∀ c ∈ a :: cs, c.nulls.any id = false ∧ 0 < c.n) →
+    ascSeams z (some (stored z (maxAt a.ix (a.n - 1)))) cs = pairsAll (crossAscOK z) (a :: cs)
+  | [], _, _ => rfl
+  | b :: rest, a, h => by
+    have ha := h a (by simp)
+    have hb := h b (by simp)
+    have ih := ascSeams_eq_pairsAll z rest b (fun c hc => h c (List.mem_cons_of_mem _ hc))
+    simp only [ascSeams, pairsAll, crossAscOK, firstNonNull_of_no_null b hb.1 hb.2, lastNonNull_of_no_null b hb.1 hb.2,
+      lastNonNull_of_no_null a ha.1 ha.2, ih]
+
+theorem ascSeams_none_eq_pairsAll (z : Int) (cs : List Chunk) (h : ∀ c ∈ cs, c.nulls.any id = false ∧ 0 < c.n) :
+    ascSeams z none cs = pairsAll (crossAscOK z) cs := by
+  cases cs with
+  | nil => rfl
+  | cons a rest =>
+    have ha := h a (by simp)
+    simp only [ascSeams, firstNonNull_of_no_null a ha.1 ha.2, lastNonNull_of_no_null a ha.1 ha.2, Bool.true_and]
+    exact ascSeams_eq_pairsAll z rest a h
+
 /-- C06 on the multi view, core: if `multiColumnIndex.IsAscending` answers true, no page of any chunk is a
     null page (the guard of `Find`), every chunk that claims ASCENDING does so truthfully (its stored bound
     lists pass the adjacent-pair check) and has at least one page, then the concatenated index is
@@ -428,6 +486,7 @@ theorem multiAscending_sound (z : Int) (cs : List Chunk)
         have := hle c hc i a b hi ha hb'
         simp only [minAt, maxAt, ha, hb', stored, Option.getD_some]
         exact this }
+  rw [ascSeams_none_eq_pairsAll z cs (fun c hc => ⟨(hok c hc).nonull, (hok c hc).pos⟩)] at hpairs
   have hl := multi_isAsc_lists z cs hok (fun c hc => htruth c hc (hall c hc)) hpairs
   apply ascending_of_isAsc z z (concat cs) (concat_maxs_length cs hwf)
   · simp only [concat, List.map_flatMap]; exact hl.1
